@@ -34,7 +34,7 @@ TORCH_FUN = {"torch.log": "log", "torch.exp": "exp", "torch.sigmoid": "sigmoid",
              "math.log": "log", "math.exp": "exp", "math.sqrt": "sqrt", "np.log": "log", "np.exp": "exp", "np.sqrt": "sqrt"}
 # shape-only helpers: the value of the first argument passes through unchanged
 TRANSPARENT_CALLS = {"unsqueeze_right", "unsqueeze_left", "expand_left", "expand_right", "torch.tensor", "torch.as_tensor", "float", "torch.Tensor"}
-TRANSPARENT_METHODS = {"unsqueeze", "squeeze", "float", "double", "to", "expand", "view", "reshape", "clone", "detach", "contiguous", "expand_as", "t"}
+TRANSPARENT_METHODS = {"unsqueeze", "squeeze", "float", "double", "to", "expand", "view", "reshape", "clone", "detach", "contiguous", "expand_as", "t", "item"}
 TRANSPARENT_ATTRS = {"value", "weighted_value", "T", "data"}
 
 
